@@ -393,9 +393,11 @@ def record_sim(cfg, extra_module=None):
             ti = int(state['sim'].t.ti)
             pre_alive = np.asarray(self.alive.raw[:self.uid.len_used]).copy() if name == 'step_die' else None
             pre_stamped = stamped_living(self) if name in ('step_die', 'finish_step') else None
+            pre_vals = {nm: [cv(x) for x in np.asarray(arr.raw)] for nm, arr in (('alive', self.alive), ('tidead', self.ti_dead), ('parent', self.parent))} if name == 'grow' else None
             out = f(self, *a, **kw)
             e = dict(op=name, ti=ti, phase=state['phase'])
             if pre_stamped is not None: e['pre_stamped'] = pre_stamped
+            if pre_vals is not None: e['pre_vals'] = pre_vals          # the values when grow was entered (modules may have written since the last recorded call)
             if name == 'grow':
                 n = a[0] if a else kw.get('n'); slots = a[1] if len(a) > 1 else kw.get('new_slots')
                 e['k'] = int(n if n is not None else len(slots)); e['slots'] = None if slots is None else [int(s) for s in np.asarray(slots)]
@@ -767,7 +769,8 @@ class Tracker:
             if o['n'] != prev['n'] + k: self.bad('dense-ids', f'{where}: uid space {prev["n"]} -> {o["n"]} after grow({k})')
             if o['au'] != prev['au'] + list(range(prev['n'], prev['n'] + k)): self.bad('active', f'{where}: new agents were not appended to auids', site='People.grow')
             for nm in ('alive', 'tidead', 'parent'):
-                if o[nm][1][:prev['n']] != prev[nm][1][:prev['n']]: self.bad('values-preserved', f'{where}: grow changed existing values of people.{nm}', array=nm)
+                before = (e.get('pre_vals') or {}).get(nm, prev[nm][1])
+                if o[nm][1][:prev['n']] != before[:prev['n']]: self.bad('values-preserved', f'{where}: grow changed existing values of people.{nm}', array=nm)
             if any(x != 'T' for x in o['alive'][1][prev['n']:o['n']]): self.bad('values-preserved', f'{where}: new agents are not alive')
             if any(x != 'nan' for x in o['tidead'][1][prev['n']:o['n']]):
                 self.bad('new-agent-defaults', f"{where}: new agents {list(range(prev['n'], o['n']))[:6]} already carry a death stamp {o['tidead'][1][prev['n']:o['n']][:6]} (ti_dead must start unset)", array='ti_dead')
